@@ -46,8 +46,21 @@ fn cfg(tier: Tier, index: u64) -> HistCfg {
         phases: false,
         special_keys: false,
         default_table: false,
+        big_table: None,
     };
     rare_regions(&mut c, index);
+    if index % 300 == 113 {
+        // chains of thousands of links; the spliced reads look up old (deep) keys
+        make_very_dense(&mut c);
+        c.max_buckets = 4;
+        c.ops.w.bulk = 0;
+    }
+    if index % 6 == 1 {
+        // batches of thousands of pairs
+        c.ops.max_batch = 200;
+        c.ops.val = ValProfile::Small;
+        c.ops.w.bulk = 6;
+    }
     c
 }
 
@@ -70,6 +83,7 @@ fn ro_cfg() -> OpsCfg {
             dbsync: 0,
             handles: 3,
             reopen: 0,
+            burst: 0,
         },
         val: ValProfile::Small,
         n_ops: 0..=60,
